@@ -106,6 +106,9 @@ def cases(tier, rng):
     for a in [x for x, w in voc] + [3, 5, 6, 7, 12, 0.75, 1.5]:       # a value added to itself (its difference is a division by zero)
         yield Case("value.add", [F(a), F(a)], "add/equal")
         yield Case("value.addsub", [F(a), F(a)], "addsub/equal", model=False)
+    for a, b in ((0, 4), (4, 0), (4, 4), (4, -4), (-3, 5), (F(1, 3), F(1, 3)), (8, F(8, 3))):      # zero operands, zero sums, negative values
+        yield Case("value.add", [F(a), F(b)], "add/edge")
+        yield Case("value.subtract", [F(a), F(b)], "subtract/edge")
     beats = list(range(-8, 1101)) + [2 ** k for k in range(11, 41)] + [2 ** k + 1 for k in range(1, 41)] + [2 ** k - 1 for k in range(2, 41)]
     beats += [F(1, 2), F(1, 4), F(3, 2), F(5, 2), F(1, 3), F(2, 3), F(7, 4), F(-1, 2), F(1e308), F(2.0 ** 1000), F(1e-300), "inf", "-inf", "nan"]
     for b in beats:
@@ -135,9 +138,7 @@ def close(x, y, tol=1e-12):
     return abs(F(x) - F(y)) <= tol * abs(F(y))
 
 def compare(c, obs, model_line):
-    if c["fn"] in ("value.add", "value.subtract") and not isinstance(obs, Err):
-        m = dec(model_line)
-        return not isinstance(m, Err) and close(obs, m)
+    # add / subtract are modelled in double arithmetic (Value.addF / subtractF): compared bit for bit like everything else
     return enc(obs) == model_line
 
 def oracle(c, obs):
@@ -160,10 +161,16 @@ def oracle(c, obs):
         return None if close(obs, F(a[1]) * F(a[0]) / a[2]) else "tuplet() is not the ratio formula"
     if fn == "value.named_tuplet":
         return None if obs[0] == obs[1] else "tuplet helper differs from the general ratio formula"
-    if fn == "value.add":
-        return None if close(obs, 1 / (1 / F(a[0]) + 1 / F(a[1]))) else "add is not the sum of the durations"
-    if fn == "value.subtract":
-        return None if close(obs, 1 / (1 / F(a[0]) - 1 / F(a[1]))) else "subtract is not the difference of the durations"
+    if fn in ("value.add", "value.subtract"):
+        x, y = F(a[0]), F(a[1])
+        if x == 0 or y == 0:
+            return None                                   # a zero value stands for no duration at all: outside the statement
+        tot = 1 / x + 1 / y if fn == "value.add" else 1 / x - 1 / y
+        if tot == 0:
+            return None if isinstance(obs, Err) else "the difference of equal durations is not a note value"
+        if isinstance(obs, Err):
+            return "%s raised %s" % (fn, obs.name)
+        return None if close(obs, 1 / tot) else ("add is not the sum of the durations" if fn == "value.add" else "subtract is not the difference of the durations")
     if fn == "value.addsub":
         return None if close(obs, a[0], 1e-9) else "subtract does not invert add"
     if fn == "meter.valid_beat_duration":
